@@ -142,6 +142,13 @@ class AlgorithmWithAnnealingMixin:
                 else:
                     # Decrease temperature linearly
                     self.temperature -= self._annealing_temperature_decrement
+                    # after (n_plateau - 1) decrements we are on the last plateau, at temperature 1 exactly
+                    # (the repeated floating-point subtraction may leave 1 + a few ulps)
+                    if (
+                        self.current_iteration // self._annealing_period
+                        >= self.algo_parameters["annealing"]["n_plateau"] - 1
+                    ):
+                        self.temperature = 1.0
                     self.temperature = max(self.temperature, 1)
 
                 self.temperature_inv = 1.0 / self.temperature
